@@ -177,7 +177,16 @@ pub fn run(ctx: &mut Ctx) -> (&'static str, String, bool) {
             let len = if miri { 6 } else { 1 + r.usize_below(200) };
             let mut stream = vec![];
             for _ in 0..len {
-                match r.below(8) {
+                match r.below(9) {
+                    8 => {
+                        // a well-framed packet the library cannot decode (unknown type / undefined enumerant): an error for
+                        // the caller, nothing written, and the keep-alives behind it are answered as usual
+                        let n = 4 * (1 + r.usize_below(5));
+                        let mut f = r.bytes(n);
+                        f[0] = if compressed { (n / 4) as u8 } else { n as u8 };
+                        f[1] = if r.chance(1, 2) { 69 + r.below(150) as u8 } else { 64 };
+                        stream.extend(f);
+                    },
                     0 | 1 => stream.extend_from_slice(&ka),
                     2 => {
                         // near misses: TINY_NONE with non-zero reqi, other sub-types with reqi 0, SMALL_NONE reqi 0
@@ -361,7 +370,7 @@ pub fn run(ctx: &mut Ctx) -> (&'static str, String, bool) {
         use crate::corpus::{real_decode, real_encode, Dec, Enc};
         let mut p = Part::new();
         let mut r = base_rng.fork(7070);
-        let mut judge_one = |frame: &[u8], what: &str, p: &mut Part| {
+        let judge_one = |frame: &[u8], what: &str, p: &mut Part| {
             let Dec::Packet(pk, _) = real_decode(frame, true) else { return };
             p.evaluations += 1;
             p.distinct(&("maybe_pong", frame));
